@@ -1,5 +1,5 @@
 #!/venv/bin/python
-"""Re-judge one replay file written by a check:   replay.py out/replay/<Cxx>/<n>.json
+"""Re-judge one replay file written by a check:   replay.py out/replay/<Cxx>-<tier>/<n>.json
 Prints the recorded scenario/trace record and lets TLC evaluate the property clauses on it again
 (the record holds the inputs and the projected outputs of the real call)."""
 import json
